@@ -1,4 +1,5 @@
 import re
+import threading
 from configparser import ConfigParser
 from io import StringIO
 from warnings import warn
@@ -1927,18 +1928,27 @@ class LazyCryptContext(CryptContext):
             kwds["schemes"] = schemes
         self._lazy_kwds = kwds
 
+    #: serializes first-use initialization across threads
+    _lazy_lock = threading.RLock()
+
     def _lazy_init(self):
-        kwds = self._lazy_kwds
-        if "onload" in kwds:
-            onload = kwds.pop("onload")
-            kwds = onload(**kwds)
-        del self._lazy_kwds
-        super().__init__(**kwds)
-        self.__class__ = CryptContext
+        with LazyCryptContext._lazy_lock:
+            # NOTE: reading the instance dict directly, since another thread may have
+            #       finished the job (and switched the class) while we waited for the lock;
+            #       and our own __init__() call below re-enters this method.
+            kwds = object.__getattribute__(self, "__dict__").get("_lazy_kwds")
+            if kwds is None:
+                return
+            if "onload" in kwds:
+                onload = kwds.pop("onload")
+                kwds = onload(**kwds)
+            del self._lazy_kwds
+            super().__init__(**kwds)
+            self.__class__ = CryptContext
 
     def __getattribute__(self, attr):
-        if (
-            not attr.startswith("_") or attr.startswith("__")
-        ) and self._lazy_kwds is not None:
-            self._lazy_init()
+        if not attr.startswith("_") or attr.startswith("__"):
+            # NOTE: always going through the lock (instead of peeking at _lazy_kwds),
+            #       so a second thread waits until the first one is done initializing.
+            LazyCryptContext._lazy_init(self)
         return object.__getattribute__(self, attr)
